@@ -3,7 +3,9 @@
 //
 // Environment (all stubs are listed in DESIGN.md section 2.3 and in the evidence):
 //   * clock: TscTimestamp::start/end return the next value of a ghost counter that advances by an arbitrary
-//     (symbolic) increment per reading -> every clock history is covered, monotone non-decreasing;
+//     (symbolic) increment per reading -> every clock history is covered, monotone non-decreasing per thread;
+//     with T >= 2 each sequentialised thread's time line restarts at the round's base reading, so timestamps of
+//     different threads are unordered among each other (as in a parallel round);
 //   * timer = Tsc at 10^12 Hz, duration_since = later - earlier (corollary of C11, see spec/c11_lemmas.smt2);
 //   * thread pool: par_extend runs the task for index 0..=aux sequentially on the caller (property C06 taken
 //     as an assumption; also keeps catch_unwind, which ICEs kani-compiler, out of the program);
@@ -206,9 +208,14 @@ where
         G.rounds += 1;
         kani::assume(G.rounds <= G.round_cut);
     }
+    // Each (sequentialised) thread gets its own time line starting at the round's common base: in a real
+    // parallel round thread j's timestamps are not ordered after thread i's, only after the round start.
+    let base = unsafe { G.clock };
+    let mut latest = base;
     let mut i = 0;
     while i <= aux {
         unsafe {
+            G.clock = base;
             // a new sample starts on (sequentialised) thread i
             G.phase = 0;
             G.sample_first = G.next;
@@ -221,9 +228,14 @@ where
         vec.push(Some(task(i)));
         unsafe {
             assert!(G.phase == 2, "sample finished without both timestamps");
+            if G.clock > latest {
+                latest = G.clock;
+            }
         }
         i += 1;
     }
+    // the caller resumes after every thread has finished
+    unsafe { G.clock = latest };
 }
 
 fn shared(action: Action) -> SharedContext {
@@ -500,6 +512,13 @@ loop_stubs! {
     fn c03_counts_n2_s1_t3() { run_loop(Some(2), 1, 3, 2, false) }
 }
 
+// @cell props=C03 tier=quick kind=core timeout=1500 mem=12 cls=K
+// @desc n=1, s=1, T=3: the single round overshoots n by two samples; all 3 samples are recorded (T*ceil(n/T))
+loop_stubs! {
+    #[kani::unwind(6)]
+    fn c03_counts_n1_s1_t3() { run_loop(Some(1), 1, 3, 2, false) }
+}
+
 // @cell props=C03 tier=quick kind=core timeout=900 mem=12 cls=K
 // @desc n=0 (s=1) and s=0 (n=1): the benchmarked function and the generator are never called, nothing stored
 loop_stubs! {
@@ -600,7 +619,7 @@ loop_stubs! {
 
 // ---- C19: automatic sample size
 
-fn run_tune(n: u32, t: usize, round_cut: u32, with_max: bool, p: u128) {
+fn run_tune(n: u32, t: usize, round_cut: u32, with_max: bool, p: u128, skip: bool) {
     unsafe {
         G.round_cut = round_cut;
         G.precision = p;
@@ -613,7 +632,7 @@ fn run_tune(n: u32, t: usize, round_cut: u32, with_max: bool, p: u128) {
     } else {
         (None, u128::MAX)
     };
-    let options = BenchOptions { sample_count: Some(n), max_time, ..Default::default() };
+    let options = BenchOptions { sample_count: Some(n), max_time, skip_ext_time: if skip { Some(true) } else { None }, ..Default::default() };
     let mut ctx = BenchContext::new(&sh, &options, NonZeroUsize::new(t).unwrap());
     Bencher::new(&mut ctx)
         .with_inputs(|| unsafe {
@@ -639,7 +658,7 @@ fn run_tune(n: u32, t: usize, round_cut: u32, with_max: bool, p: u128) {
                 size0: 1,
                 max_p,
                 min_p: 0,
-                skip_ext: false,
+                skip_ext: skip,
                 precision: p,
             };
             let o = check_rounds(&m, rounds);
@@ -672,21 +691,29 @@ fn run_tune(n: u32, t: usize, round_cut: u32, with_max: bool, p: u128) {
 // @desc doubles exactly while floor(slowest/precision) <= 100; the passing round is sample #1 at the final size
 loop_stubs! {
     #[kani::unwind(6)]
-    fn c19_tune_n1_t1() { run_tune(1, 1, 3, false, 10) }
+    fn c19_tune_n1_t1() { run_tune(1, 1, 3, false, 10, false) }
 }
 
 // @cell props=C19 tier=quick kind=core timeout=1800 mem=12 cls=K
 // @desc n=2, T=1, precision 1 ps, with a symbolic max_time: the budget also covers the tuning rounds
 loop_stubs! {
     #[kani::unwind(6)]
-    fn c19_tune_n2_t1_max() { run_tune(2, 1, 3, true, 1) }
+    fn c19_tune_n2_t1_max() { run_tune(2, 1, 3, true, 1, false) }
+}
+
+// @cell props=C19,C04 tier=quick kind=core timeout=1800 mem=12 cls=K
+// @desc n=2, T=1, precision 1 ps, symbolic max_time and skip_ext_time = true: the budget (sum of the slowest timed
+// @desc sections, >= 1 ns per round) keeps accumulating across the tuning rounds and the switch to collecting
+loop_stubs! {
+    #[kani::unwind(6)]
+    fn c19_tune_n2_t1_max_skip_ext() { run_tune(2, 1, 3, true, 1, true) }
 }
 
 // @cell props=C19 tier=quick kind=core timeout=2400 mem=14 cls=K
 // @desc n=1, T=2 (sequentialised), precision 1000 ps: the slowest thread's sample decides
 loop_stubs! {
     #[kani::unwind(6)]
-    fn c19_tune_n1_t2() { run_tune(1, 2, 3, false, 1000) }
+    fn c19_tune_n1_t2() { run_tune(1, 2, 3, false, 1000, false) }
 }
 
 // @cell props=C19 tier=thorough kind=core timeout=3000 mem=16 cls=K
@@ -696,7 +723,7 @@ loop_stubs! {
     fn c19_tune_sym_precision() {
         let p: u32 = kani::any();
         kani::assume(p >= 1 && p <= (1 << 20));
-        run_tune(1, 1, 3, false, p as u128)
+        run_tune(1, 1, 3, false, p as u128, false)
     }
 }
 
@@ -704,7 +731,7 @@ loop_stubs! {
 // @desc n=1, T=1, precision 10 ps, up to 4 rounds
 loop_stubs! {
     #[kani::unwind(10)]
-    fn c19_tune_n1_t1_r4() { run_tune(1, 1, 4, false, 10) }
+    fn c19_tune_n1_t1_r4() { run_tune(1, 1, 4, false, 10, false) }
 }
 
 // ====================================================================================================
@@ -1035,6 +1062,19 @@ mon_stubs! {
         kani::cover!(test && s == 0);
         kani::cover!(test && s == 3);
         std::mem::forget(ctx);
+    }
+}
+
+// @cell props=C01,C02 tier=quick kind=core timeout=1800 mem=14 cls=K ignore_re=write_bytes::<.*(ZstIn|ZstOut)>\|memset.destination.region.writeable
+// @desc bench_refs with a sized input with destructor and a zero-sized output with destructor, sample size 2: the
+// @desc zero-sized outputs are dropped after the end timestamp, exactly once each, before their inputs are dropped
+mon_stubs! {
+    #[kani::unwind(6)]
+    fn c01_refs_sized_in_zst_out() {
+        unsafe { C.input_drop = true; }
+        entry_driver!(2, 1, false, false, false, |b| b.with_inputs(gen_tok)
+            .bench_refs(|t: &mut Tok| unsafe { use_tok(t.id); ZstOut }));
+        unsafe { assert_eq!(G.zst_out_drops, 2); }
     }
 }
 
